@@ -349,6 +349,15 @@ def find_check_cache(context):
              for i in regen_files.outputs) ):
         return
 
+    # If the find cache is newer than the build file, a previous regeneration
+    # saved its cache but never finished writing the build file, so the cache
+    # describes a build file that doesn't exist; regenerate to be safe.
+    if ( _path.getmtime_ns(Path(FindCacheFile.cachefile),
+                           context.env.base_dirs, strict=False) >
+         _path.getmtime_ns(regen_files.outputs[0], context.env.base_dirs,
+                           strict=False) ):
+        return
+
     # Otherwise, check to see if any of the `find_files` calls have different
     # results. If not, we can avoid regenerating.
     regenerate = False
